@@ -359,6 +359,50 @@ def case_grad_obj(D, Dy, sub):
     return Case(label, fn)
 
 
+def case_nested(R):
+    """objects that hold other library objects as constructor fields (truncated measures hold their base measure): the nested
+    object is data — traced under jit (two instances with different values through ONE jitted function), differentiable
+    (cotangent of the nested measure's fields vs finite differences), and survives flatten/unflatten"""
+    label = f"nested/R{R}"
+    def fn(m):
+        from gaussian_toolbox.experimental import truncated_measure as gt_trunc
+        rng = gen.rng_path(m.seed, label)
+        fails = []
+        params = dict(R=R)
+        J = jnp.asarray
+        def base(scale):
+            return gt_measure.GaussianMeasure(Lambda=J(rng.uniform(0.5, 2.0, (R, 1, 1))), nu=J(scale * rng.standard_normal((R, 1))), ln_beta=J(0.3 * rng.standard_normal(R)))
+        lo, hi = J(-0.5 * np.ones((R, 1))), J(1.5 * np.ones((R, 1)))       # documented shape [R, 1]
+        mk = lambda b: gt_trunc.TruncatedGaussianMeasure(measure=b, lower_limit=lo, upper_limit=hi)
+        b1, b2 = base(1.0), base(0.3)
+        t1, t2 = mk(b1), mk(b2)
+        for name, fun in {"integral": lambda t: t.integral(), "integrate x": lambda t: t.integrate("x"), "integrate x**3": lambda t: t.integrate("x**k", k=3),
+                          "evaluate": lambda t: t(J(np.linspace(-1.0, 2.0, 5))[:, None])}.items():
+            try:
+                jf = jax.jit(fun)
+                for t in (t1, t2):
+                    fail_if(fails, PROPERTY, f"nested:jit:{name}", "jit with the truncated measure as ARGUMENT differs from eager", np.asarray(jf(t)), np.asarray(fun(t)), params=params)
+            except Exception as e:
+                fails.append(failure(PROPERTY, f"nested:jit:{name}", f"raised: {type(e).__name__}: {str(e)[:200]}", params=params))
+        try:
+            leaves, treedef = jax.tree_util.tree_flatten(t1)
+            t1b = jax.tree_util.tree_unflatten(treedef, leaves)
+            fail_if(fails, PROPERTY, "nested:flatten", "flatten/unflatten changes the truncated measure", np.asarray(t1b.integrate("x")), np.asarray(t1.integrate("x")), params=params)
+            if not any(np.shape(l) == np.shape(b1.nu) and np.allclose(np.asarray(l), np.asarray(b1.nu)) for l in leaves):
+                fails.append(failure(PROPERTY, "nested:flatten", "the nested measure's parameters are not among the leaves (treated as static structure)", params=params))
+        except Exception as e:
+            fails.append(failure(PROPERTY, "nested:flatten", f"raised: {type(e).__name__}: {str(e)[:200]}", params=params))
+        try:
+            loss = lambda t: jnp.sum(t.integrate("x"))
+            G = jax.grad(loss)(t1)
+            ref = fd_grad(lambda nu: loss(mk(gt_measure.GaussianMeasure(Lambda=b1.Lambda, nu=nu, ln_beta=b1.ln_beta))), np.asarray(b1.nu))
+            fail_if(fails, PROPERTY, "nested:grad", "cotangent of the nested measure's nu differs from central differences", np.asarray(G.measure.nu), ref, tol=1e-5, params=params)
+        except Exception as e:
+            fails.append(failure(PROPERTY, "nested:grad", f"raised: {type(e).__name__}: {str(e)[:200]}", params=params))
+        return fails
+    return Case(label, fn)
+
+
 def case_jit_first(D):
     """call order: the FIRST use of an operation (for a dimension nothing else in this process uses) happens under jit, the
     same operation is then run eagerly on fresh objects and under a second jit trace; nothing created while tracing may leak"""
@@ -409,6 +453,7 @@ def cases(seed, tier):
         out.append(case_scan(8, 3, 2))
     out.append(case_grad(2, 1, 0))
     out.append(case_grad_obj(3, 2, 0))
+    out.append(case_nested(2))
     if tier != "quick":
         out.append(case_grad(3, 2, 1))
         out.append(case_grad_obj(2, 1, 1))
